@@ -31,6 +31,8 @@ pub struct Outcome {
     pub user_frames: Vec<Vec<u8>>,
     pub writes_after_drop: usize,
     pub panic: Option<String>,
+    /// every write call the connection made: (bytes accepted so far, bytes offered)
+    pub offers: Vec<(usize, usize)>,
 }
 
 fn user_frame(mode: &Mode, i: usize) -> Vec<u8> {
@@ -114,8 +116,8 @@ pub fn drive(c: &DropCase, with_drops: bool) -> Outcome {
         })
     });
     match r {
-        Ok((results, polls, dr, dw, user_frames, writes_after_drop)) => Outcome { results, written: t.written(), polls, dropped_in_read: dr, dropped_in_write: dw, user_frames, writes_after_drop, panic: None },
-        Err(p) => Outcome { results: vec![], written: t.written(), polls: 0, dropped_in_read: 0, dropped_in_write: 0, user_frames: vec![], writes_after_drop: 0, panic: Some(p) },
+        Ok((results, polls, dr, dw, user_frames, writes_after_drop)) => Outcome { results, written: t.written(), polls, dropped_in_read: dr, dropped_in_write: dw, user_frames, writes_after_drop, panic: None, offers: t.0.lock().unwrap().offers.clone() },
+        Err(p) => Outcome { results: vec![], written: t.written(), polls: 0, dropped_in_read: 0, dropped_in_write: 0, user_frames: vec![], writes_after_drop: 0, panic: Some(p), offers: vec![] },
     }
 }
 
@@ -531,31 +533,11 @@ impl Part for RealAdaptors {
     }
 }
 
-pub fn parts() -> Vec<Box<dyn DynPart>> {
-    vec![Box::new(Generated), Box::new(SmallExhaustive), Box::new(RealAdaptors)]
-}
 
-pub fn run(run: &mut Run) {
-    run.rule = "The harness owns the schedule: a tokio connection over a scripted transport (read half: Pending / Ready with any \
-        segmentation; write half: Pending / piecewise acceptance) is polled by hand on a paused-clock runtime, and at chosen poll indices \
-        a Pending read future is dropped and a fresh read started; optionally the application writes a frame of its own between reads. \
-        Oracle: the delivered results equal those of the same script without drops (which itself must equal the C05 model); the \
-        outgoing byte stream consists of whole frames, exactly one TINY_NONE per delivered keep-alive, application frames intact and in \
-        order. Complete: every subset of the first 13 poll indices x every subset of application writes after the first 4 read attempts, for three small scripts x 2 modes; generated: sessions of all packet \
-        kinds with many keep-alives and 0..12 drop points. A third part drives the real tokio UDP and WebSocket adaptors on loopback: before / after each datagram or message is sent a read is polled to Pending and dropped (also with a partial frame buffered), and the delivered packets must equal the model's. Non-trivial = at least one drop actually happened while the future was Pending."
-        .into();
-    run.assumptions = vec![
-        "dropping the future between polls is the only cancellation mechanism (what select!/timeout do)".into(),
-        "stalls (no waker) are not used here: every Pending step wakes the task, so the paused clock never fires the 90 s timeout".into(),
-    ];
-    let total = 3 * 2 * (1u64 << (SMALL_POLLS + SMALL_WRITES));
-    run.enumerate(&SmallExhaustive, total, true, |i| {
-        let per = 1u64 << (SMALL_POLLS + SMALL_WRITES);
-        Some(SmallCase { script: (i / (2 * per)) as usize, compressed: (i / per) % 2 == 1, mask: (i % per) as u32 })
-    });
-    // generated
+/// the generated schedules of the second part (also used by C20's write-call part)
+pub fn drop_case_strategy() -> impl Strategy<Value = DropCase> {
     let reads_faults = session_strategy(10, 8, 0, false, Some(false));
-    let strat = (
+    (
         reads_faults,
         proptest::collection::vec(prop_oneof![2 => Just(ReadStep::Pending)], 0..8),
         proptest::collection::vec(any::<prop::sample::Index>(), 0..8),
@@ -570,9 +552,63 @@ pub fn run(run: &mut Run) {
             }
             s.writes = writes;
             DropCase { session: s, drops, user_writes }
-        });
+        })
+}
+
+/// 130..600 four-byte frames (pings, keep-alives, other TINYs) in one to three reads; every Pending the read future ever
+/// returns is answered by dropping it
+pub fn burst_strategy() -> impl Strategy<Value = DropCase> {
+    (
+        any::<bool>(),
+        proptest::collection::vec(prop_oneof![6 => (1u8..30, any::<u8>()).prop_map(|(a, b)| FrameSpec::Tiny(a, b)), 1 => Just(FrameSpec::KeepAlive)], 130..600),
+        proptest::collection::vec(any::<prop::sample::Index>(), 0..3),
+        proptest::collection::vec(prop_oneof![3 => (1usize..5).prop_map(WriteStep::Accept), 3 => Just(WriteStep::Pending)], 0..12),
+        proptest::collection::btree_set(0usize..600, 0..4),
+    )
+        .prop_map(|(compressed, frames, cuts, writes, user_writes)| {
+            let mode = if compressed { Mode::Compressed } else { Mode::Uncompressed };
+            let stream: Vec<u8> = frames.iter().flat_map(|f| frame_bytes(f, &mode)).collect();
+            let mut at: Vec<usize> = cuts.iter().map(|ix| ix.index(stream.len() + 1)).collect();
+            at.push(0);
+            at.push(stream.len());
+            at.sort();
+            at.dedup();
+            let steps: Vec<ReadStep> = at.windows(2).map(|w| ReadStep::Data(stream[w[0]..w[1]].to_vec())).collect();
+            let session = SessionCase { compressed, verify: false, steps, writes, label: "burst".into() };
+            DropCase { session, drops: (1..=4000usize).collect(), user_writes }
+        })
+}
+
+pub fn parts() -> Vec<Box<dyn DynPart>> {
+    vec![Box::new(Generated), Box::new(SmallExhaustive), Box::new(RealAdaptors)]
+}
+
+pub fn run(run: &mut Run) {
+    run.rule = "The harness owns the schedule: a tokio connection over a scripted transport (read half: Pending / Ready with any \
+        segmentation; write half: Pending / piecewise acceptance) is polled by hand on a paused-clock runtime, and at chosen poll indices \
+        a Pending read future is dropped and a fresh read started; optionally the application writes a frame of its own between reads. \
+        Oracle: the delivered results equal those of the same script without drops (which itself must equal the C05 model); the \
+        outgoing byte stream consists of whole frames, exactly one TINY_NONE per delivered keep-alive, application frames intact and in \
+        order. Complete: every subset of the first 13 poll indices x every subset of application writes after the first 4 read attempts, for three small scripts x 2 modes; generated: sessions of all packet \
+        kinds with many keep-alives and 0..12 drop points, and bursts of 130..600 small frames arriving in one to three reads with the read future dropped at every suspension point it reaches. A third part drives the real tokio UDP and WebSocket adaptors on loopback: before / after each datagram or message is sent a read is polled to Pending and dropped (also with a partial frame buffered), and the delivered packets must equal the model's. Non-trivial = at least one drop actually happened while the future was Pending."
+        .into();
+    run.assumptions = vec![
+        "dropping the future between polls is the only cancellation mechanism (what select!/timeout do)".into(),
+        "stalls (no waker) are not used here: every Pending step wakes the task, so the paused clock never fires the 90 s timeout".into(),
+    ];
+    let total = 3 * 2 * (1u64 << (SMALL_POLLS + SMALL_WRITES));
+    run.enumerate(&SmallExhaustive, total, true, |i| {
+        let per = 1u64 << (SMALL_POLLS + SMALL_WRITES);
+        Some(SmallCase { script: (i / (2 * per)) as usize, compressed: (i / per) % 2 == 1, mask: (i % per) as u32 })
+    });
+    // generated
+    let strat = drop_case_strategy();
     let n = run.budget(40_000, 3_000_000);
     run.prop(&Generated, strat, n);
+    // long bursts: hundreds of small frames arriving in one to three reads, and the read future dropped at EVERY suspension point
+    // it ever reaches (a select! loop whose other branch is always ready)
+    let n = run.budget(1_500, 100_000);
+    run.prop(&Generated, burst_strategy(), n);
     // the real adaptors
     run.max_shrink_iters = 60;
     let frames = proptest::collection::vec(frame_strategy(1, 0), 1..12);
